@@ -75,7 +75,7 @@ def step (line : String) : String :=
     | .error e => s!"parse-err {e}"
     | .ok (e, rest) =>
       let over := (skipIgnorable rest).isEmpty
-      let r := match eval dummyEnv [] e with
+      let r := match eval dummyEnv {} e with
         | .ok (v, _) => s!"ok {showValue v}"
         | .error m => s!"err {m}"
       s!"{showExpr e} | {over} | {r}"
